@@ -17,7 +17,27 @@ def _pu():
     return plot_utils
 
 
-def run_sub(pu, inn, tn, td, a=1.0, b=0.0):
+SC7 = 8 ** 7                  # the deep V stage: D = 7
+
+
+def assignments(inn, out, cap=12):
+    """all order-preserving ways to find the input nodes' points among the output nodes (more than one only when points coincide)"""
+    res = []
+
+    def rec(k, at, acc):
+        if len(res) >= cap:
+            return
+        if k == len(inn):
+            res.append(list(acc))
+            return
+        for p in range(at, len(out)):
+            if out[p][1] == list(inn[k][1]):
+                rec(k + 1, p + 1, acc + [p + 1])
+    rec(0, 0, [])
+    return res
+
+
+def run_sub(pu, inn, tn, td, a=1.0, b=0.0, SC=SC):                 # pylint: disable=redefined-outer-name
     """inn: nodes in SCALED lattice integers. Runs subdivideCubicPath on a*(v/SC)+b floats; returns the event."""
     f = lambda v: a * (v / SC) + b if not isinstance(a, int) or v % SC else a * (v // SC) + b  # noqa: E731
     nodes = [[[f(h[0]), f(h[1])] for h in nd] for nd in inn]
@@ -34,7 +54,7 @@ def run_sub(pu, inn, tn, td, a=1.0, b=0.0):
         status = "raised:" + type(ex).__name__
     if len(nodes) > NODE_CAP:
         status = "loop"
-    ev = {"inn": inn, "tn": tn, "td": td, "status": status, "map": [a, b], "integral": True, "out": [], "orig": []}
+    ev = {"inn": inn, "tn": tn, "td": td, "status": status, "map": [a, b], "integral": True, "deeper": False, "out": [], "orig": [], "sc": SC}
     if status != "ok":
         return ev
     out = []
@@ -48,7 +68,10 @@ def run_sub(pu, inn, tn, td, a=1.0, b=0.0):
             for c in (h[0], h[1]):
                 s = (c - b) / a * SC
                 if s != int(s) or abs(s) > 2 ** 30:
-                    ev["integral"] = False
+                    if math.isfinite(s) and abs(s) <= 2 ** 30 and (s * 2.0 ** 40) == int(s * 2.0 ** 40):
+                        ev["deeper"] = True           # a dyadic number finer than D halvings give: more levels than the scaling supports
+                    else:
+                        ev["integral"] = False
                     s = 0
                 pt.append(int(s))
             row.append(pt)
@@ -56,22 +79,28 @@ def run_sub(pu, inn, tn, td, a=1.0, b=0.0):
     ev["out"] = out
     if len(pos) < len(inn):
         # node objects were replaced rather than edited in place: identify the original nodes by their (unchanged) points, in order
-        pos, at = {}, 0
-        for k, nd in enumerate(inn):
-            while at < len(out) and out[at][1] != list(nd[1]):
-                at += 1
-            if at < len(out):
-                pos[k] = at + 1
-                at += 1
+        alts = assignments(inn, out)
+        ev["alts"] = alts[1:]                       # coincident points make the identification ambiguous: any consistent one may be meant
+        pos = {k: p for k, p in enumerate(alts[0])} if alts else {}
     ev["orig"] = [pos.get(k, 0) for k in range(len(inn))]
     return ev
 
 
-def judge(ctx, name, evs):
-    slim = [{k: e[k] for k in ("inn", "out", "orig", "tn", "td", "integral")} for e in evs]
-    vs, stats = vlib.judge_events(os.path.join(ctx.workdir, name), "BezierTrace", "BezierTrace.cfg", slim, chunk=1500)
+def judge(ctx, name, evs, cfg="BezierTrace.cfg"):
+    keys = ("inn", "out", "orig", "tn", "td", "integral", "deeper")
+    slim, owner = [], []
+    for n, e in enumerate(evs):
+        for orig in [e["orig"]] + e.get("alts", []):
+            slim.append(dict({k: e[k] for k in keys}, orig=orig))
+            owner.append(n)
+    raw, stats = vlib.judge_events(os.path.join(ctx.workdir, name), "BezierTrace", cfg, slim, chunk=1500)
     ctx.states += stats["distinct"]
     ctx.transitions += stats["generated"]
+    vs = [None] * len(evs)
+    for n, v in zip(owner, raw):                   # the best verdict over the candidate identifications: ok > skip > the first clause
+        cur = vs[n]
+        if cur is None or v == "ok" or (v == "skip" and cur != "ok"):
+            vs[n] = v if cur != "ok" else cur
     return vs
 
 
@@ -152,12 +181,44 @@ def run(ctx):
             rej += 1
             ctx.violation(v, {"mode": e["mode"], "event": {k: e[k] for k in ("inn", "tn", "td", "map", "out", "orig", "integral")}}, "ok", v)
     ctx.traces += nv
+    # V-deep: the realistic regime (flatness a few hundredths of the curve's size, 5-7 levels of halving), judged with D = 7
+    nd = 120 if tier == "quick" else 3000
+    deep = []
+    for _ in range(nd):
+        S = rng.choice([1, 2, 3, 7])
+        pt = lambda: [rng.randint(0, S) * SC7, rng.randint(0, S) * SC7]  # noqa: E731
+        inn = [[pt(), pt(), pt()] for _k in range(rng.choice([2, 2, 3]))]
+        if rng.random() < 0.15:
+            inn[-1][1] = list(inn[0][1])
+        tn, td = 3, 7 * 4 ** rng.choice([3, 4, 5, 6, 6, 7, 7, 8])
+        a, b, _m = rng.choice(MAPS[:3])
+        e = run_sub(pu, inn, tn, td, a, b, SC=SC7)
+        e["mode"] = "V"
+        deep.append(e)
+    ok_deep = [e for e in deep if e["status"] == "ok"]
+    vd = judge(ctx, "vdeep", ok_deep, cfg="BezierTrace7.cfg")
+    dskip = 0
+    for e in deep:
+        if e["status"] != "ok":
+            rej += 1
+            ctx.violation("bezier.terminates", {"mode": "V", "event": {k: e[k] for k in ("inn", "tn", "td", "map", "status", "sc")}}, "returns", e["status"])
+    for e, v in zip(ok_deep, vd):
+        ctx.count(("Vdeep", repr(e["inn"]), e["tn"], e["td"]))
+        if v == "skip":
+            dskip += 1
+            ctx.skipped += 1
+        elif v != "ok":
+            rej += 1
+            ctx.violation(v, {"mode": "V", "event": {k: e[k] for k in ("inn", "tn", "td", "map", "out", "orig", "integral", "deeper", "sc")}}, "ok", v)
+    ctx.traces += nd
+    ctx.stage("Vdeep", kind="code->spec", events=nd, D=7, skipped_deeper_than_D=dskip, max_nodes_out=max([len(e["out"]) for e in ok_deep] or [0]))
     e0 = next(e for e in evs if e["mode"] == "V")
     ctx.sample({"mode": "V", "nodes_in": e0["inn"], "flatness_squared": "%d/%d" % (e0["tn"], e0["td"]), "nodes_out": len(e0["out"]), "orig_positions": e0["orig"]})
     ctx.stage("V", kind="code->spec", events=len(evs), rejected=rej, skipped_deeper_than_D=ctx.skipped)
     ctx.trusted += ["TLC 1.8", "BigInt.tla", "harness identity bookkeeping of node objects and exact rescaling of dyadic floats to integers", "vlib TLA value parser"]
     ctx.assumptions += ["control points on integer lattices mapped through exact affine maps; halving dyadic numbers is exact in binary floating point",
-                        "flatness sqrt(tn/td) with tie-free tn/td; subdivisions deeper than 4 levels are skipped (counted)"]
+                        "flatness sqrt(tn/td) with tie-free tn/td; subdivisions deeper than D levels (4; 7 in the deep V stage) are skipped (counted)",
+                        "a dyadic parameter interval is one obtained by repeated halving, [k/2^n, (k+1)/2^n]"]
     return ctx.finish(
         rule="G: every single-piece curve with control points on the 3x3 lattice (thorough: also every two-piece path on 2x2) x tie-free flatness values through "
              "subdivideCubicPath; results identical to the TLC walk pass, others are judged by TLC; V: random paths of 2..6 nodes on lattices up to 8x8 with "
@@ -171,9 +232,10 @@ def replay(rec):
     pu = _pu()
     e = rec["case"]["event"]
     a, b = e.get("map", [1.0, 0.0])
-    e2 = run_sub(pu, e["inn"], e["tn"], e["td"], a, b)
+    sc = e.get("sc", SC)
+    e2 = run_sub(pu, e["inn"], e["tn"], e["td"], a, b, SC=sc)
     if e2["status"] != "ok":
         return False, {"status": e2["status"]}
     ctx = vlib.Ctx("C10", "quick", 0, LEVEL, fresh=False)
-    v = judge(ctx, "replay", [e2])[0]
+    v = judge(ctx, "replay", [e2], cfg="BezierTrace7.cfg" if sc == SC7 else "BezierTrace.cfg")[0]
     return v in ("ok", "skip"), {"verdict": v, "nodes_out": len(e2["out"])}
